@@ -4,6 +4,10 @@ model - that is the property).  Binding:
   T1  TLC explores the model for K=2 over a 2/3-symbol alphabet up to 2 bytes with the whole action alphabet and every small
       argument (in range, past the end, npos, huge), checks the laws of the reference semantics, and dumps every edge; the edges
       are chained into edge-covering tours that are executed on real SBufs; TLC validates every step (Trace_SBuf).
+  T1b seeded random walks through the same state graph (every abstract state met in many sharing configurations of the objects).
+  T1c every mutating call with boundary arguments x every canonical sharing configuration of a value with a sibling (same blob,
+      prefix / middle / tail / empty view, grown past the sibling, consumed from it, unshared, NUL-terminated sibling) x a suite of
+      probe writes through both values - hidden-state damage (a claimed blob tail, a moved size counter) surfaces in the suite.
   T2  long seeded random call sequences over 1..6 SBufs (aliasing copies, substrings of themselves, strings growing across
       reallocation, arguments relative to the current length, npos, out-of-range) executed on real SBufs and validated by TLC;
       values longer than 64 bytes are compared on a projection (length, first/last 8 bytes, two position-weighted checksums).
@@ -559,7 +563,9 @@ def run(ctx):
     if events3 and events3[0]:
         ctx.sample({'kind': 'size-limit scenario', 'calls': [e.get('line') for e in events3[0]], 'results': [e.get('res') for e in events3[0]]})
     ctx.cov['rule'] = ('T1: every edge of the TLC state graph of SBufModel (K=2, alphabet of %d byte values, length <= 2, whole action alphabet, '
-                       'arguments 0..3, npos, huge) executed once on real SBufs inside seed-shuffled edge-covering tours. T2: seeded random call sequences '
+                       'arguments 0..3, npos, huge) executed once on real SBufs inside seed-shuffled edge-covering tours. T1b: category-weighted random walks '
+                       'through the same graph. T1c: 9 sharing configurations x every mutating call with boundary arguments x 2 probe suites, one history each. '
+                       'T2: seeded random call sequences '
                        '(K in 1..6, arguments relative to the current length / npos / out of range, literals up to 4000 bytes, growth capped at 150..70000 bytes). '
                        'Every executed call is one TLC trace-validation step. distinct_nontrivial counts distinct (call, reported contents) pairs.' % (3 if ctx.thorough else 2))
     ctx.assumptions += ['the driver reads contents through length()/toStdString(); values above 64 bytes are compared on length, first/last 8 bytes and two checksums, '
